@@ -146,3 +146,21 @@ PROPS["C14"] = dict(
     trusted=SUB_TRUSTED,
     compare_trace=False,
 )
+
+def _mm(pid, gen, what, cert):
+    return dict(
+        id=pid, coq_files=MEM_PROOF_FILES + ["Mem/IterProofs.v"] + ALL_SUB_PROOFS + [f"Props/{pid}.v"],
+        gen=gen, oracle=gens.oracle_mm, nontrivial=gens.nontrivial_mm, shrink_fields=["h"],
+        builds=["debug", "release"], cert=cert,
+        rule=what + ": exhaustive needles <= 4 (6 thorough) x haystacks <= 9 (12) over {a,b}; structured needles (u^k, u^k v, Fibonacci, Thue-Morse, "
+             "single letters, bytes equal mod 64, lengths 1..100 (300 thorough)) in haystacks built from their own factors with planted matches and "
+             "near-matches; lengths around the routing thresholds 15/16 and 63/64; needles > 32 bytes in haystacks below/around the vector minimum "
+             "(find_simple path); haystacks that exhaust the adaptive prefilter (>= 50 candidates < 8 bytes apart) before a late match; results, "
+             "strategy labels, prefilter loads, Two-Way steps compared with the model; non-trivial = needle >= 2 bytes and haystack >= 4 bytes",
+        assumptions=SUB_ASSUME + TIER1, trusted=SUB_TRUSTED + ["the union + function-pointer pairing of Searcher is modelled as an inductive strategy; checked by the strategy labels"],
+    )
+
+PROPS["C03"] = _mm("C03", gens.gen_c03, "memmem::find and Finder::find x {Auto, None} x rankers {default, const0, const255, identity, reversed} x CPU {avx2, sse2-only, none}", "fwd")
+PROPS["C04"] = _mm("C04", gens.gen_c04, "memmem::rfind and FinderRev::rfind", "rev")
+PROPS["C10"] = _mm("C10", gens.gen_c10, "every (needle, haystack) under all configurations (prefilter Auto/None x 5 rankers + seeded tables x 3 CPUs), answers compared across configurations", "fwd")
+PROPS["C10"]["oracle"] = gens.oracle_c10
